@@ -363,3 +363,20 @@ Theorem spelling_independent fs cb c1 c2 s1 s2 :
   resolve fs c1 s1 = resolve fs c2 s2 ->
   contains fs c1 cb s1 = contains fs c2 cb s2 /\ member fs c1 cb s1 = member fs c2 cb s2.
 Proof. unfold contains, member. intros ->. split; reflexivity. Qed.
+
+(* ---------- adding a positive pattern at the end never re-includes ---------- *)
+Lemma git_positive_monotone ps p cs :
+  p_neg p = false -> git_ignored ps cs = true -> git_ignored (ps ++ [p]) cs = true.
+Proof.
+  intros Hn H. unfold git_ignored in *. apply orb_true_iff in H. apply orb_true_iff. destruct H as [H|H].
+  - left. apply existsb_exists in H. destruct H as (d & Hin & Hx). apply existsb_exists. exists d.
+    split; [assumption|]. rewrite level_snoc. destruct (pat_hits true d p); [rewrite Hn; reflexivity|assumption].
+  - right. rewrite level_snoc. destruct (pat_hits false cs p); [rewrite Hn; reflexivity|assumption].
+Qed.
+
+Lemma ps_positive_monotone ps p cs :
+  p_neg p = false -> ps_match ps cs = true -> ps_match (ps ++ [p]) cs = true.
+Proof.
+  unfold ps_match. intros Hn H. rewrite ps_fold_snoc. unfold ps_step.
+  destruct (outcome_of p cs); [assumption| |]; rewrite Hn; reflexivity.
+Qed.
